@@ -414,6 +414,23 @@ func aliasText(al map[int]int) string {
 	return strings.Join(s, ",")
 }
 
+func parseAliasText(s string) map[int]int {
+	out := map[int]int{}
+	if s == "-" || s == "" {
+		return out
+	}
+	for _, e := range strings.Split(s, ",") {
+		d, t, ok := strings.Cut(e, ":")
+		di, err1 := strconv.Atoi(d)
+		ti, err2 := strconv.Atoi(t)
+		if !ok || err1 != nil || err2 != nil {
+			hx.Fatal("alias text %q", s)
+		}
+		out[di] = ti
+	}
+	return out
+}
+
 // ---------------------------------------------------------------- -mutate: perturb the real side
 
 func mutateLines(lines []string) ([]string, bool) {
@@ -624,6 +641,14 @@ func (w *worker) check(j *job) {
 			rep.Count("aliases:equal")
 		}
 	}
+	if !hookAvailable {
+		// without the hook the real alias table cannot be read: the model's table stands in for it in the conversion
+		// of the real text below (weaker: the table itself is then not compared)
+		realAl = parseAliasText(w.ask("c01frontcf aliases " + text))
+		if len(realAl) > 0 {
+			rep.Count("real:alias-table-taken-from-the-model(no-hook)")
+		}
+	}
 	// wellTyped looks at live code only and has no block parameters: 1, or 0 when a block type has parameters
 	specOK := true
 	if a := w.ask("c01frontcf wt " + text); a != "1" {
@@ -681,6 +706,8 @@ func (w *worker) check(j *job) {
 		var optAl map[int]int
 		if hookAvailable {
 			optAl = realAliases(b)
+		} else {
+			optAl = realAl
 		}
 		t, err := toTokens(optLines, optAl, f.results)
 		if err != nil {
@@ -700,7 +727,7 @@ func (w *worker) check(j *job) {
 		fmt.Println("real tokens:", realTok)
 		fmt.Println("opt  tokens:", optTok)
 	}
-	if realTok != "" && (hookAvailable || !strings.Contains(realTok, " A")) {
+	if realTok != "" {
 		if a := w.ask("c01frontcf wfssa " + realTok); a != "1" {
 			violate("impl-violation", "C01:frontcf-real-output-not-wellFormed",
 				"SsaPass.wellFormed rejects the REAL front end's output (a use without a definition, a type mismatch, a branch with the wrong number of arguments, …): "+realTok, "1", a)
@@ -919,7 +946,7 @@ func main() {
 		rep.Note("SELF-TEST: -mutate %d perturbs the real output; violations are expected", *mutate)
 	}
 	if !hookAvailable {
-		rep.Note("built without the verif tag: the real alias table is not read; functions whose real output uses aliased values are not run")
+		rep.Note("built without the verif tag: the real alias table is not read (the model's table is used to interpret the real text)")
 	}
 	if *hx.Replay != "" {
 		replayFile(*hx.Replay)
